@@ -1,6 +1,6 @@
 (* C13 — an expression means the same in every position, alias, spelling and cache size.
    Table facts tied to the source (the parse/show theorems are added from Proofs/ExprParseProofs.v). *)
-From Jawk Require Import Base Json Reader JsonParser Ctx Printer Fn Expr Chain ExprParser Go Render ShowExpr ReaderLemmas ParserProofs ExprParseProofs TableProofs.
+From Jawk Require Import Base Json Reader JsonParser Ctx Printer Fn Expr Chain ExprParser Go Render ShowExpr ReaderLemmas ParserProofs ExprParseProofs FnTableOk.
 
 (* every option position uses the same expression reader and the same evaluator: in the model by construction
    (parse_whole / parse_selection / parse_sorter / parse_preset all call read_getter; every stage calls get) *)
